@@ -55,6 +55,18 @@ def run(F, rep):
             n += 1
             rep.ob("C16-LINE", o["instance"], o["ok"], detail=o["detail"], site=o["site"], how=o["how"], key=o["key"].replace("C19-G3", "C16-LINE"))
     rep.floor("C16-LINE", n, 4, "line-handling clauses of the record reader shared with C19")
+    # (PACK) reference segments go through the tuple packer whatever letters the FASTA text contains: an alphabet-dependent
+    # arm that packs a symbol its base cannot hold makes create succeed and extraction return other bases (shared with C12)
+    from rules import c12
+    sub = type(rep)(rep.pid, rep.tier)
+    sub.cfg = getattr(rep, "cfg", "dev")
+    c12.run(F, sub)
+    n = 0
+    for o in sub.obligations:
+        if o["rule"] in ("C12-TP1", "C12-TP2", "C12-TP3", "C12-MK"):
+            n += 1
+            rep.ob("C16-PACK", o["instance"], o["ok"], detail=o["detail"], site=o["site"], how=o["how"], key=o["key"].replace(o["rule"], "C16-PACK/" + o["rule"][4:]))
+    rep.floor("C16-PACK", n, 10, "tuple-packing clauses shared with C12")
 
 
 def eof_rules(F, rep):
